@@ -667,6 +667,13 @@ func (c *client) processWorkDone(
 	runID string,
 	doneMessage WorkDoneMessage,
 ) ExecutionResult {
+	if doneMessage.OutputID == "" {
+		// Every output of a step has an ID. A work done message without one did not arrive intact (a payload cut
+		// down to an empty map still decodes), so it must not be handed to the caller as a result.
+		err := fmt.Errorf("work done message for run ID '%s' carries no output ID", runID)
+		c.logger.Errorf(err.Error())
+		return NewErrorExecutionResult(err)
+	}
 	c.logger.Debugf("Step with run ID '%s' completed with output ID '%s'.", runID, doneMessage.OutputID)
 
 	// Print debug logs from the step as debug.
